@@ -31,8 +31,8 @@ Print Assumptions C13_no_new_error_kinds.
 Example C13_nonvacuous :
   match api_decode (B "[{""op"":""remove"",""path"":""/x""},{""op"":""remove"",""path"":""/a/7""},{""op"":""add"",""path"":""/b"",""value"":1},{""op"":""remove"",""path"":""/q/r/s""},{""op"":""remove"",""path"":""/a/0""}]") with
   | Some p =>
-      api_apply (mkOpts true 0 true false true None) [] p (B "{""a"":[1,2]}") = ROut (B "{""a"":[2],""b"":1}") /\
-      api_apply (mkOpts true 0 false false true None) [] p (B "{""a"":[1,2]}") = RErr (Some 0%nat) EMissing
+      api_apply (mkOpts true 0 true false true [] None) [] p (B "{""a"":[1,2]}") = ROut (B "{""a"":[2],""b"":1}") /\
+      api_apply (mkOpts true 0 false false true [] None) [] p (B "{""a"":[1,2]}") = RErr (Some 0%nat) EMissing
   | None => False
   end.
 Proof. vm_compute. split; reflexivity. Qed.
